@@ -268,7 +268,7 @@ func headBytes(b []byte, n int) []byte {
 func runC14(r *vf.Run) {
 	r.Rule("one evaluation = one request: (in process) a wire-reachable message given to convert.ToQuery + Index.Execute under recover, or (real server) raw request bytes delivered through a pass-through gRPC codec, " +
 		"each followed by a well-formed probe request with a known answer; the server process must stay alive, keep answering and answer the probe correctly; " +
-		"a concurrent phase sends the hostile requests mixed with well-formed queries of known answer from 16 clients at once (default and tiny cache); requests: every single and every pair of structural omissions at every position of valid seed trees, random field combinations, mutated wire encodings, nesting up to the decoder's limit, group-by lists of 7..130, 200 and 500 entries naming one or two low-cardinality columns; " +
+		"a concurrent phase sends the hostile requests mixed with well-formed queries of known answer from 16 clients at once (default and tiny cache); requests: every single and every pair of structural omissions at every position of valid seed trees, random field combinations, mutated wire encodings, nesting up to the decoder's limit, group-by lists of 7..130, 200 and 500 entries naming one or two low-cardinality columns, long names with multi-byte characters around byte counts 16..4096, slow requests (deep chain, 100 000 operands, 10 000 members) carrying a malformed member; " +
 		"distinct_nontrivial = distinct request byte strings")
 	r.Assume("nesting <= protobuf-go's decode recursion limit (10000 messages)", "message size <= gRPC's 4 MiB default", "a response to a malformed-but-decodable query is not checked for content, only that it is a response or an RPC error")
 	rng := r.RNG("c14")
@@ -437,6 +437,54 @@ func runC14(r *vf.Run) {
 					}
 				}
 				addMsg(fmt.Sprintf("long-groupby/c%d/n%d", ci, n), "long-groupby", &pb.QueryRequest{Queries: []*pb.Query{{Expr: a.ToProto(), GroupBy: gb}}})
+			}
+		}
+	}
+	// 2f. long names with multi-byte characters around typical truncation lengths, as group-by column, as column and as
+	// value of a comparison (whatever cuts a string at a byte count cuts some of these inside a character)
+	for _, bnd := range []int{16, 32, 64, 128, 255, 256, 1024, 4096} {
+		for off := -4; off <= 1; off++ {
+			for ri, tail := range []string{"é", "日本", "\U0001d4b3"} {
+				name := strings.Repeat("a", bnd+off) + strings.Repeat(tail, 12)
+				id := fmt.Sprintf("long-name/b%d%+d/r%d", bnd, off, ri)
+				switch (bnd + off + ri) % 3 {
+				case 0:
+					addMsg(id+"/group-by", "long-name", &pb.QueryRequest{Queries: []*pb.Query{{Expr: a.ToProto(), GroupBy: []string{name}}}})
+				case 1:
+					addMsg(id+"/column", "long-name", &pb.QueryRequest{Queries: []*pb.Query{{Expr: oracle.Eq(name, "x").ToProto(), GroupBy: []string{cols[0], name}}}})
+				default:
+					addMsg(id+"/value", "long-name", &pb.QueryRequest{Queries: []*pb.Query{{Expr: oracle.And(a, oracle.Not(oracle.Eq(cols[0], name))).ToProto(), GroupBy: []string{name + "z"}}}})
+				}
+			}
+		}
+	}
+	// 2g. one request that keeps the server busy for a while (a deep chain, a very wide operator, thousands of members)
+	// AND carries a malformed member: whatever the server does with slow requests must cope with their rejected parts
+	{
+		deep := a.ToProto()
+		for i := 0; i < 4000; i++ {
+			deep = &pb.Query_Expression{Value: &pb.Query_Expression_Not_{Not: &pb.Query_Expression_Not{Expr: deep}}}
+		}
+		wide := &oracle.Expr{Op: '|'}
+		for i := 0; i < 100000; i++ {
+			wide.Kids = append(wide.Kids, []*oracle.Expr{a, b, c}[i%3])
+		}
+		var many []*pb.Query
+		for i := 0; i < 10000; i++ {
+			many = append(many, &pb.Query{Id: int32(i + 1), Expr: []*oracle.Expr{a, b, c}[i%3].ToProto(), GroupBy: []string{cols[0]}})
+		}
+		slow := map[string][]*pb.Query{"deep-chain": {{Expr: deep}}, "wide-or": {{Expr: wide.ToProto()}}, "ten-thousand-members": many}
+		bad := map[string]*pb.Query{
+			"no-expr":             {GroupBy: []string{cols[0]}},
+			"not-without-operand": {Expr: &pb.Query_Expression{Value: &pb.Query_Expression_Not_{Not: &pb.Query_Expression_Not{}}}},
+			"empty-expression":    {Expr: &pb.Query_Expression{}},
+			"eq-unset-inside-and": {Expr: &pb.Query_Expression{Value: &pb.Query_Expression_And_{And: &pb.Query_Expression_And{Exprs: []*pb.Query_Expression{a.ToProto(), {}}}}}},
+			"unknown-column":      {Expr: oracle.Eq("nosuchcolumn", "1").ToProto()},
+		}
+		for sn, sq := range slow {
+			for bn, bq := range bad {
+				addMsg(fmt.Sprintf("slow-then-bad/%s/%s", sn, bn), "slow-request-with-malformed-member", &pb.QueryRequest{Queries: append(append([]*pb.Query{}, sq...), bq)})
+				addMsg(fmt.Sprintf("bad-then-slow/%s/%s", sn, bn), "slow-request-with-malformed-member", &pb.QueryRequest{Queries: append([]*pb.Query{bq}, sq...)})
 			}
 		}
 	}
@@ -618,7 +666,7 @@ func runC14(r *vf.Run) {
 	}
 	var small []hostile
 	for _, h := range reqs {
-		if len(h.raw) < 20000 && h.class != "many-queries" && h.class != "long-groupby" {
+		if len(h.raw) < 20000 && h.class != "many-queries" && h.class != "long-groupby" && h.class != "slow-request-with-malformed-member" {
 			small = append(small, h)
 		}
 	}
